@@ -1422,13 +1422,17 @@ func FunExpr(query *Query, current Map, expr *sqlparser.FuncExpr, opts ...ExprOp
 				return nil, e
 			}
 			var rs any
-			var err error
+			var asyncErr error
 			query.wg.Add(1)
 			go func() {
-				rs, err = function(query, current, nil, slice)
+				rs, asyncErr = function(query, current, nil, slice)
 				query.wg.Done()
 			}()
-			return &rs, err
+			// the outcome is only read once the call has completed
+			query.postProcessors = append(query.postProcessors, func() error {
+				return asyncErr
+			})
+			return &rs, nil
 		}
 	case "spin":
 		{
